@@ -100,6 +100,13 @@ fn strs(v: &Value) -> Vec<String> {
 pub fn exp_dt() -> chrono::DateTime<chrono::Utc> {
     chrono::DateTime::<chrono::Utc>::from_timestamp(EXP, 0).unwrap()
 }
+/// a different expiration for every role, so that a mix-up between roles shows
+pub fn exp_of(role: &str) -> chrono::DateTime<chrono::Utc> {
+    let d = match role { "timestamp" => 1, "snapshot" => 2, "targets" => 3, "d1" => 4, "d2" => 5, _ => 6 };
+    chrono::DateTime::<chrono::Utc>::from_timestamp(EXP + d * DAY, 0).unwrap()
+}
+const SN_VERSION: u64 = 7;
+const TS_VERSION: u64 = 9;
 fn nz(n: u64) -> NonZeroU64 {
     NonZeroU64::new(n).unwrap()
 }
@@ -156,7 +163,7 @@ pub async fn run_program(p: &Value, consistent: bool, variant: usize) -> Value {
         Ok(x) => x,
         Err(err) => return json!({"stage":"new","err":format!("{err}")}),
     };
-    ed.snapshot_version(nz(1)).snapshot_expires(exp_dt()).timestamp_version(nz(1)).timestamp_expires(exp_dt());
+    ed.snapshot_version(nz(SN_VERSION)).snapshot_expires(exp_of("snapshot")).timestamp_version(nz(TS_VERSION)).timestamp_expires(exp_of("timestamp"));
     let mut signed_repo = None;
     for (i, op) in ops.iter().enumerate() {
         let name = op["op"].as_str().unwrap();
@@ -177,13 +184,13 @@ pub async fn run_program(p: &Value, consistent: bool, variant: usize) -> Value {
                 "delegate_role" => {
                     let d = op["name"].as_str().unwrap();
                     let ks = nums(&op["keys"]);
-                    ed.delegate_role(d, &sources(&e, &ks), paths_for(&strs(&op["m"])), nz(op["thr"].as_u64().unwrap()), exp_dt(), nz(1))
+                    ed.delegate_role(d, &sources(&e, &ks), paths_for(&strs(&op["m"])), nz(op["thr"].as_u64().unwrap()), exp_of(d), nz(1))
                         .await.map_err(|x| x.to_string())?;
                     versions.insert(d.to_string(), 1);
                 }
                 "sign_targets_editor" => {
                     let v = *versions.get(&editing).unwrap_or(&1);
-                    ed.targets_version(nz(v)).map_err(|x| x.to_string())?.targets_expires(exp_dt()).map_err(|x| x.to_string())?;
+                    ed.targets_version(nz(v)).map_err(|x| x.to_string())?.targets_expires(exp_of(&editing)).map_err(|x| x.to_string())?;
                     ed.sign_targets_editor(&sources(&e, &nums(&op["keys"]))).await.map_err(|x| x.to_string())?;
                     editing = "none".into();
                 }
@@ -195,7 +202,7 @@ pub async fn run_program(p: &Value, consistent: bool, variant: usize) -> Value {
                 "sign" => {
                     if editing != "none" {
                         let v = *versions.get(&editing).unwrap_or(&1);
-                        ed.targets_version(nz(v)).map_err(|x| x.to_string())?.targets_expires(exp_dt()).map_err(|x| x.to_string())?;
+                        ed.targets_version(nz(v)).map_err(|x| x.to_string())?.targets_expires(exp_of(&editing)).map_err(|x| x.to_string())?;
                     }
                 }
                 x => return Err(format!("unknown op {x}")),
@@ -286,6 +293,7 @@ pub async fn run_program(p: &Value, consistent: bool, variant: usize) -> Value {
     serve_dir(&t, "targets", &tg);
     let shipped = std::fs::read(&e.root_path).unwrap();
     let mut downloads = serde_json::Map::new();
+    let mut put_problems: Vec<String> = Vec::new();
     let (loaded, cls, view) = match guard(load(&shipped, &t, None, None, true)).await {
         Err(pn) => (false, format!("panic:{pn}"), Value::Null),
         Ok(Err(err)) => (false, format!("{}: {}", classify(&err), format!("{err}").chars().take(200).collect::<String>()), Value::Null),
@@ -302,6 +310,23 @@ pub async fn run_program(p: &Value, consistent: bool, variant: usize) -> Value {
                     Err(er) => format!("err:{}", classify(&er)),
                 };
                 downloads.insert(n.clone(), json!(r));
+            }
+            // versions and expirations of every role as they were put in
+            if repo.timestamp().signed.version.get() != TS_VERSION || repo.timestamp().signed.expires != exp_of("timestamp") {
+                put_problems.push(format!("timestamp: version {} expires {}", repo.timestamp().signed.version, repo.timestamp().signed.expires));
+            }
+            if repo.snapshot().signed.version.get() != SN_VERSION || repo.snapshot().signed.expires != exp_of("snapshot") {
+                put_problems.push(format!("snapshot: version {} expires {}", repo.snapshot().signed.version, repo.snapshot().signed.expires));
+            }
+            if repo.targets().signed.expires != exp_of("targets") {
+                put_problems.push(format!("targets: expires {}", repo.targets().signed.expires));
+            }
+            for d in ["d1", "d2"] {
+                if let Some(t) = repo.delegated_role(d).and_then(|r| r.targets.as_ref()) {
+                    if t.signed.expires != exp_of(d) {
+                        put_problems.push(format!("{d}: expires {}", t.signed.expires));
+                    }
+                }
             }
             (true, "ok".to_string(), view_of(&repo))
         }
@@ -329,7 +354,7 @@ pub async fn run_program(p: &Value, consistent: bool, variant: usize) -> Value {
         }
     };
     json!({"stage":"done","loaded":loaded,"cls":cls,"view":view,"downloads":downloads,"publish_err":publish_err,
-           "meta_ok":meta_ok,"meta_detail":meta_detail,"fs_loaded":fs_loaded,"fs_downloads":fs_downloads})
+           "meta_ok":meta_ok,"meta_detail":meta_detail,"fs_loaded":fs_loaded,"fs_downloads":fs_downloads,"put_problems":put_problems})
 }
 
 pub fn run(args: &[String]) {
